@@ -80,8 +80,18 @@ class InjectLatency:
         src = self.source_name
         dst = self.dest_name
 
+        def apply() -> None:
+            # Rebuild from the configured latency plus every injection that is
+            # still active, so overlapping windows neither drop nor outlive
+            # each other's extra latency.
+            latency = original_latency
+            for dist in link.__dict__.setdefault("_injected_latency", []):
+                latency = _CompoundLatency(latency, dist)
+            link.latency = latency
+
         def activate(e: Event) -> None:
-            link.latency = _CompoundLatency(original_latency, extra_dist)
+            link.__dict__.setdefault("_injected_latency", []).append(extra_dist)
+            apply()
             logger.info(
                 "[FaultInjection] Injected +%sms latency on %s -> %s at %s",
                 self.extra_ms,
@@ -91,7 +101,10 @@ class InjectLatency:
             )
 
         def deactivate(e: Event) -> None:
-            link.latency = original_latency
+            active = link.__dict__.setdefault("_injected_latency", [])
+            if extra_dist in active:
+                active.remove(extra_dist)
+            apply()
             logger.info(
                 "[FaultInjection] Restored latency on %s -> %s at %s",
                 src,
@@ -156,8 +169,14 @@ class InjectPacketLoss:
         dst = self.dest_name
         extra = self.loss_rate
 
+        def apply() -> None:
+            # Configured rate plus every injection that is still active.
+            active = link.__dict__.setdefault("_injected_loss", [])
+            link.packet_loss_rate = min(1.0, original_loss + sum(active))
+
         def activate(e: Event) -> None:
-            link.packet_loss_rate = min(1.0, original_loss + extra)
+            link.__dict__.setdefault("_injected_loss", []).append(extra)
+            apply()
             logger.info(
                 "[FaultInjection] Injected +%.1f%% packet loss on %s -> %s at %s",
                 extra * 100,
@@ -167,7 +186,10 @@ class InjectPacketLoss:
             )
 
         def deactivate(e: Event) -> None:
-            link.packet_loss_rate = original_loss
+            active = link.__dict__.setdefault("_injected_loss", [])
+            if extra in active:
+                active.remove(extra)
+            apply()
             logger.info(
                 "[FaultInjection] Restored packet loss on %s -> %s at %s",
                 src,
